@@ -58,7 +58,8 @@ PROPS = {
             "the tamper theorems CONCLUDE an explicit collision",
             "mint keys are nonzero and pairwise distinct, public keys pairwise distinct (hypotheses of the wrong-key statements): checked dynamically on all "
             "180 keys of 3 generated keysets in every run",
-            "GenerateDLEQ draws its nonce from crypto/rand (not controllable): 'all nonces' is proved in Lean, sampled in the stream",
+            "GenerateDLEQ draws its nonce from crypto/rand (not controllable): 'all nonces' is proved in Lean; the stream samples it by repeated calls and "
+            "additionally feeds the real verifiers with proofs made by a NUT-12 re-implementation of the prover at chosen edge nonces (1, 2, n-1, n-2, small, reduced)",
         ],
     },
 }
